@@ -22,6 +22,7 @@ void shim_clear(void);
 long long shim_wbytes(int fd);
 int shim_calls(char kind, int fd);
 int shim_slot_of_fd(int fd);   /* provided by the program: fd -> small role number for logs, or -1 */
+extern int shim_umask_calls, shim_mkstemp_calls, shim_umask_in_mkstemp;
 extern int shim_alloc_count, shim_alloc_nth, shim_alloc_len, shim_alloc_fired;
 void shim_alloc_arm(int nth, int len);   /* nth = 0: count only */
 #endif
